@@ -42,9 +42,15 @@ def _call(e, spec, X, metric, local=False, lengths=None):
                                       use_triangle_inequality=spec.get('tri', False), **kw, **extra), None
     if algo == 'hybrid':
         if form == 'estimator':
-            est = e['hybrid'].KHybrid(metric, n_clusters=spec.get('k'), cluster_radius=spec.get('cutoff'),
-                                      kmedoids_updates=spec['n_iters'], random_state=spec.get('random_state'),
-                                      mpi_mode=mpi_mode)
+            if spec.get('seed_via_set_params'):
+                # the sklearn way: build the object first, configure it afterwards
+                est = e['hybrid'].KHybrid(metric, n_clusters=spec.get('k'), cluster_radius=spec.get('cutoff'),
+                                          kmedoids_updates=spec['n_iters'], mpi_mode=mpi_mode)
+                est.set_params(random_state=spec.get('random_state'))
+            else:
+                est = e['hybrid'].KHybrid(metric, n_clusters=spec.get('k'), cluster_radius=spec.get('cutoff'),
+                                          kmedoids_updates=spec['n_iters'], random_state=spec.get('random_state'),
+                                          mpi_mode=mpi_mode)
             est.fit(X, init_centers=init)
             return est.result_, est
         extra = {}
@@ -229,6 +235,8 @@ def one_sweep(ctx, e, P, st, spec_extra, mpi, poison=0, cinds_form=0, suffix='')
     props = spec_extra.get('proposals')
     if 'random_state' in spec_extra:
         spec['random_state'] = spec_extra['random_state']
+    if 'est_n_clusters' in spec_extra:
+        spec['est_n_clusters'] = spec_extra['est_n_clusters']
     if spec_extra.get('per_rank_rng'):
         spec['per_rank_rng'] = True
     if cinds_form == 1:
@@ -282,7 +290,7 @@ def run_serial_km(ctx, e, P, spec):
         if 'X_lengths' in sp:
             kws['X_lengths'] = sp['X_lengths']
         if sp.get('form') == 'estimator':
-            est = e['kmedoids'].KMedoids(P.sut_metric(), n_iters=kws.pop('n_iters'))
+            est = e['kmedoids'].KMedoids(P.sut_metric(), n_clusters=sp.get('est_n_clusters'), n_iters=kws.pop('n_iters'))
             est.fit(X, **kws)
             return est.result_
         if sp.get('proposals') is not None:
